@@ -530,3 +530,8 @@ def verify_units(prop):
 
 
 unit("C01", "modes.copies_keep_pipeline")(_copies)
+
+
+# overrides given to run_mode are part of the configuration the models run with (shared with C08)
+from . import C08 as _C08o  # noqa: E402
+unit("C01", "overrides")(_C08o.overrides_unit)
